@@ -1700,9 +1700,9 @@ impl Tree {
 		// of the restore. The restore is a multi-step rewrite of nearly all
 		// in-memory state (manifest, memtables, WAL, seq counters, oracle); a
 		// concurrent commit racing through any one of those steps would observe
-		// torn state. In-flight commits already past `write_mutex` (in their
-		// apply phase) will finish against the soon-to-be-replaced memtable —
-		// their data is intentionally discarded by the restore.
+		// torn state. Commits already past `write_mutex` (in their apply phase)
+		// are waited for: they belong to the timeline the restore discards, and
+		// must not land in the restored state afterwards.
 		let _write_guard = self.core.commit_pipeline.lock_writes();
 
 		// Step 1: Restore files from checkpoint
